@@ -346,8 +346,10 @@ def main():
 
 
 def write_evidence(prop, tier, seed, lean, total, distinct, ops, types, samples, violations, t0, notes, totals=None, known_hits=0):
-    notes_path = os.path.join(LEAN, "BvaProps", f"{prop}.notes.json")
-    extra = json.load(open(notes_path)) if os.path.exists(notes_path) else {}
+    try:
+        claim = json.load(open(os.path.join(ROOT, "claims.json"))).get(prop, {}).get("text", "")
+    except Exception:
+        claim = ""
     ev = {
         "property_id": prop, "tier": tier if tier in ("quick", "thorough") else "quick", "seed": seed, "level": "proof",
         "coverage": {
@@ -355,7 +357,7 @@ def write_evidence(prop, tier, seed, lean, total, distinct, ops, types, samples,
             "checker_cmd": f"cd lean && lake build BvaProps.{prop} && lake env lean <generated #print axioms file>" + (" && lake env leanchecker BvaProps." + prop if tier == "thorough" else ""),
             "trusted_base": TRUSTED_BASE,
             "theorems": lean.get("axioms", {}),
-            "proved_scope": extra.get("proved", ""), "not_proved": extra.get("not_proved", ""),
+            "what_is_proved_and_what_is_not": claim,
             "evaluations": total, "distinct_nontrivial": distinct,
             "rule": "cases are generated by the Rust harness (exhaustive small scopes + boundary lattice + random fill + histories continuing from the implementation's own state, dev and release profiles); a case is non-trivial when at least one vector operand has length > 0 (for constructors: a non-empty string/byte/bit argument, an integer argument, or a non-zero length); distinct = distinct (operation, operands) after removing the profile flag",
             "samples": samples or ["(no cases)"],
